@@ -463,3 +463,343 @@ Proof.
     apply (EC x Hlt Ix0).
 Qed.
 End OnEdgeSH.
+
+(* --- the two primitives keep all faces counter-clockwise when the new position lies on the open edge --- *)
+Lemma edge_apex_orient : forall pts d e, DW d -> EdgesCcw pts d -> e < length (d_hedges d) -> inner d e ->
+  (0 < orient (vpos pts (e_origin d e)) (vpos pts (e_origin d (rev e))) (vpos pts (e_origin d (e_prev d e))))%Z.
+Proof.
+  intros pts d e W EC He Ie. pose proof (EC e He Ie) as P. unfold tri_orient in P.
+  rewrite (dw_org_next d W e He) in P. exact P.
+Qed.
+
+Lemma split_edge_ccw : forall pts d e v, DWf d -> FacesCcw (obs_of_dcel d) pts -> e < length (d_hedges d) ->
+  inner d e -> inner d (rev e) ->
+  strictly_between (vpos pts (e_origin d e)) (vpos pts (e_to d e)) (vpos pts (Raw.num_vertices d)) = true ->
+  FacesCcw (obs_of_dcel (fst (split_edge d e v))) pts.
+Proof.
+  intros pts d e v Wf FC He Ie It SB.
+  pose proof Wf as W. apply DWf_DW in W.
+  pose proof (faces_ccw_edges pts d W FC) as EC.
+  destruct (SP.split_edge_wf d e v Wf He Ie It) as (W1 & _).
+  apply edges_ccw_faces; [apply DWf_DW; exact W1|].
+  rewrite SP.split_edge_unfold. cbn [fst].
+  pose proof (SP.SEctx_intro d e (SP.DWf_RWf d Wf) He Ie It) as C.
+  pose proof (edge_apex_orient pts d e W EC He Ie) as O1.
+  pose proof (edge_apex_orient pts d (rev e) W EC (dw_rev_lt d W e He) It) as O2. rewrite rev_rev in O2.
+  unfold e_to, e_rev in SB.
+  destruct (split_geometry _ _ _ _ _ SB O1 O2) as (G1 & G2 & G3 & G4).
+  apply (se_edges_ccw pts _ _ _ _ _ _ _ _ _ _ _ _ _ _ _ _ _ _ _ _ _ _ v C EC); assumption.
+Qed.
+
+Lemma split_half_edge_ccw : forall pts d e v, DWf d -> FacesCcw (obs_of_dcel d) pts -> e < length (d_hedges d) ->
+  inner d e -> outer d (rev e) ->
+  strictly_between (vpos pts (e_origin d e)) (vpos pts (e_to d e)) (vpos pts (Raw.num_vertices d)) = true ->
+  FacesCcw (obs_of_dcel (fst (split_half_edge d e v))) pts.
+Proof.
+  intros pts d e v Wf FC He Ie Ot SB.
+  pose proof Wf as W. apply DWf_DW in W.
+  pose proof (faces_ccw_edges pts d W FC) as EC.
+  destruct (SP.split_half_edge_wf d e v Wf He Ie Ot) as (W1 & _).
+  apply edges_ccw_faces; [apply DWf_DW; exact W1|].
+  rewrite SP.split_half_edge_unfold. cbn [fst].
+  pose proof (SP.SHctx_intro d e (SP.DWf_RWf d Wf) He Ie Ot) as C.
+  pose proof (edge_apex_orient pts d e W EC He Ie) as O1.
+  unfold e_to, e_rev in SB. apply strictly_between_spec in SB. destruct SB as (S1 & S2 & S3).
+  destruct (orient_between _ _ _ _ S1 S2 S3 O1) as (G1 & G2).
+  apply (sh_edges_ccw pts _ _ _ _ _ _ _ _ _ _ _ _ _ _ _ _ _ _ v C EC); assumption.
+Qed.
+
+(* --- handle_legal_edge_split + legalize_vertex --- *)
+Lemma on_edge_finish : forall pts fuel d1 e a0 a1 h d',
+  DWf d1 -> FacesCcw (obs_of_dcel d1) pts -> h < Raw.num_vertices d1 ->
+  legalize_vertex pts fuel (if is_flagged d1 e then set_flag (set_flag d1 a0) a1 else d1) h = Some d' ->
+     DWf d' /\ FacesCcw (obs_of_dcel d') pts
+  /\ Raw.num_vertices d' = Raw.num_vertices d1 /\ Raw.num_undirected_edges d' = Raw.num_undirected_edges d1
+  /\ Raw.num_faces d' = Raw.num_faces d1
+  /\ d_flags d' = (if is_flagged d1 e then set_nth (Nat.div2 a1) true (set_nth (Nat.div2 a0) true (d_flags d1)) else d_flags d1)
+  /\ (forall u, u < Raw.num_vertices d1 -> let a := nth u (d_verts d') dflt_v in let b0 := nth u (d_verts d1) dflt_v in
+                v_x a = v_x b0 /\ v_y a = v_y b0 /\ v_data a = v_data b0)
+  /\ (forall x, x < length (d_hedges d1) -> (e_face d' x = 0 <-> e_face d1 x = 0)).
+Proof.
+  intros pts fuel d1 e a0 a1 h d' Wf FC Hh Run.
+  destruct (is_flagged d1 e).
+  - set (d2 := set_flag (set_flag d1 a0) a1) in *.
+    pose proof Wf as W. apply DWf_DW in W.
+    assert (W2 : DW d2) by (apply set_flag_DW, set_flag_DW; exact W).
+    assert (FC2 : FacesCcw (obs_of_dcel d2) pts).
+    { apply edges_ccw_faces; [exact W2|]. apply set_flag_edges_ccw, set_flag_edges_ccw.
+      apply faces_ccw_edges; assumption. }
+    apply DWf_DW in W2.
+    destruct (legalize_vertex_invariant pts fuel d2 h d' W2 FC2 Hh Run) as (R1 & R2 & R3 & R4 & R5 & R6 & R7 & R8).
+    split; [exact R1|]. split; [exact R2|]. split; [exact R3|].
+    split; [rewrite R4; unfold d2, set_flag, Raw.num_undirected_edges; cbn [d_flags]; rewrite !snth_length; reflexivity|].
+    split; [exact R5|]. split; [exact R6|]. split; [exact R7|exact R8].
+  - apply (legalize_vertex_invariant pts fuel d1 h d' Wf FC Hh Run).
+Qed.
+
+Lemma div2_odd_double : forall k, Nat.div2 (2 * k + 1) = k.
+Proof. intro k. replace (2 * k + 1) with (S (2 * k)) by lia. apply Nat.div2_succ_double. Qed.
+
+Lemma flag_pair : forall (fl extra : list bool) i,
+  nth i fl false = true -> i < length fl ->
+  set_nth i true (set_nth (length fl + 1) true (fl ++ extra)) = fl ++ set_nth 1 true extra /\
+  set_nth (length fl + 1) true (set_nth i true (fl ++ extra)) = fl ++ set_nth 1 true extra.
+Proof.
+  intros fl extra i Hi Li. split.
+  - rewrite set_nth_app2. apply (set_nth_same _ i true _ false).
+    + rewrite app_nth1 by exact Li. exact Hi.
+    + rewrite app_length. lia.
+  - rewrite (set_nth_same _ i true (fl ++ extra) false).
+    + apply set_nth_app2.
+    + rewrite app_nth1 by exact Li. exact Hi.
+    + rewrite app_length. lia.
+Qed.
+
+Lemma is_flagged_app : forall d d1 extra e, DWf d -> e < length (d_hedges d) -> d_flags d1 = d_flags d ++ extra ->
+  is_flagged d1 e = is_flagged d e /\ Nat.div2 e < length (d_flags d).
+Proof.
+  intros d d1 extra e Wf He Fl. apply DWf_DW in Wf. pose proof (dw_even d Wf) as Ev.
+  assert (L : Nat.div2 e < length (d_flags d)).
+  { destruct (div2_cases e) as [(E & _)|(E & _)]; lia. }
+  split; [|exact L]. unfold is_flagged. rewrite Fl. apply app_nth1. exact L.
+Qed.
+
+Theorem insert_on_edge_invariant : forall pts fuel d e v d',
+  DWf d -> FacesCcw (obs_of_dcel d) pts -> e < length (d_hedges d) -> inner d e -> inner d (rev e) ->
+  strictly_between (vpos pts (e_origin d e)) (vpos pts (e_to d e)) (vpos pts (Raw.num_vertices d)) = true ->
+  insert_2d pts fuel d (IOnEdge e) v = Some d' ->
+     DWf d' /\ FacesCcw (obs_of_dcel d') pts
+  /\ Raw.num_vertices d' = S (Raw.num_vertices d) /\ Raw.num_undirected_edges d' = Raw.num_undirected_edges d + 3
+  /\ Raw.num_faces d' = Raw.num_faces d + 2
+  /\ (* a constraint edge stays a constraint edge: its second half (undirected edge E+1) is flagged as well *)
+     d_flags d' = d_flags d ++ (if is_flagged d e then [false; true; false] else [false; false; false])
+  /\ (forall u, u < Raw.num_vertices d -> let a := nth u (d_verts d') dflt_v in let b := nth u (d_verts d) dflt_v in
+                v_x a = v_x b /\ v_y a = v_y b /\ v_data a = v_data b)
+  /\ (let a := nth (Raw.num_vertices d) (d_verts d') dflt_v in v_x a = vd_x v /\ v_y a = vd_y v /\ v_data a = vd_d v)
+  /\ (forall x, x < length (d_hedges d) -> (e_face d' x = 0 <-> e_face d x = 0)).
+Proof.
+  intros pts fuel d e v d' Wf FC He Ie It SB Run.
+  unfold insert_2d, insert_on_edge in Run.
+  assert (O1 : is_outer d e = false) by (apply Nat.eqb_neq; exact Ie).
+  assert (O2 : is_outer d (e_rev e) = false) by (apply Nat.eqb_neq; exact It).
+  rewrite O1, O2 in Run.
+  pose proof (split_edge_ccw pts d e v Wf FC He Ie It SB) as FC1.
+  pose proof (SP.split_edge_wf d e v Wf He Ie It) as P. cbv zeta in P.
+  pose proof (SP.split_edge_extra d e v Wf He Ie It) as Q. cbv zeta in Q.
+  destruct (split_edge d e v) as [d1 [h [a0 a1]]] eqn:E. cbn [fst snd] in P, Q, FC1.
+  destruct P as (W1 & -> & P1 & P2 & P3 & P4 & P5 & P6 & _).
+  destruct Q as (Q1 & Q2 & _ & Q4). injection Q4 as -> ->.
+  assert (Hh : Raw.num_vertices d < Raw.num_vertices d1) by lia.
+  destruct (on_edge_finish pts fuel d1 e e _ _ d' W1 FC1 Hh Run) as (R1 & R2 & R3 & R4 & R5 & R6 & R7 & R8).
+  destruct (is_flagged_app d d1 _ e Wf He P4) as (F1 & F2).
+  pose proof (DWf_len_hedges d Wf) as LH. unfold Raw.num_undirected_edges in LH.
+  split; [exact R1|]. split; [exact R2|].
+  split; [congruence|]. split; [congruence|]. split; [congruence|].
+  split.
+  { rewrite R6, F1, P4.
+    replace (length (d_hedges d) + 3) with (2 * (length (d_flags d) + 1) + 1) by lia. rewrite div2_odd_double.
+    destruct (is_flagged d e) eqn:Fe; [|reflexivity].
+    apply (flag_pair (d_flags d) [false; false; false] (Nat.div2 e) Fe F2). }
+  split.
+  { intros u Hu. cbv zeta. assert (Hu' : u < Raw.num_vertices d1) by lia.
+    destruct (R7 u Hu') as (X1 & X2 & X3). destruct (P5 u Hu) as (Y1 & Y2 & Y3). cbv zeta in *.
+    repeat split; congruence. }
+  split.
+  { cbv zeta. destruct (R7 _ Hh) as (X1 & X2 & X3). cbv zeta in *. rewrite Q2 in X1, X2, X3.
+    cbn [v_x v_y v_data] in X1, X2, X3. auto. }
+  intros x Hx. rewrite R8 by lia. apply P6. exact Hx.
+Qed.
+
+Lemma div2_rev : forall e, Nat.div2 (rev e) = Nat.div2 e.
+Proof.
+  intro e. destruct (div2_cases e) as [(E & R)|(E & R)]; rewrite R.
+  - apply div2_odd_double.
+  - apply Nat.div2_double.
+Qed.
+
+(* the hull variant, for either direction e of the split edge e0 / rev e0 and either order of the returned halves *)
+Lemma on_edge_hull_core : forall pts fuel d e0 v d' e a0 a1,
+  DWf d -> FacesCcw (obs_of_dcel d) pts -> e0 < length (d_hedges d) -> inner d e0 -> outer d (rev e0) ->
+  strictly_between (vpos pts (e_origin d e0)) (vpos pts (e_to d e0)) (vpos pts (Raw.num_vertices d)) = true ->
+  e < length (d_hedges d) ->
+  (Nat.div2 a0 = Nat.div2 e /\ Nat.div2 a1 = length (d_flags d) + 1) \/
+  (Nat.div2 a0 = length (d_flags d) + 1 /\ Nat.div2 a1 = Nat.div2 e) ->
+  legalize_vertex pts fuel (let d1 := fst (split_half_edge d e0 v) in
+                            if is_flagged d1 e then set_flag (set_flag d1 a0) a1 else d1) (Raw.num_vertices d) = Some d' ->
+     DWf d' /\ FacesCcw (obs_of_dcel d') pts
+  /\ Raw.num_vertices d' = S (Raw.num_vertices d) /\ Raw.num_undirected_edges d' = Raw.num_undirected_edges d + 2
+  /\ Raw.num_faces d' = Raw.num_faces d + 1
+  /\ d_flags d' = d_flags d ++ (if is_flagged d e then [false; true] else [false; false])
+  /\ (forall u, u < Raw.num_vertices d -> let a := nth u (d_verts d') dflt_v in let b := nth u (d_verts d) dflt_v in
+                v_x a = v_x b /\ v_y a = v_y b /\ v_data a = v_data b)
+  /\ (let a := nth (Raw.num_vertices d) (d_verts d') dflt_v in v_x a = vd_x v /\ v_y a = vd_y v /\ v_data a = vd_d v)
+  /\ (forall x, x < length (d_hedges d) -> (e_face d' x = 0 <-> e_face d x = 0)).
+Proof.
+  intros pts fuel d e0 v d' e a0 a1 Wf FC He0 Ie Ot SB He Hdiv Run. cbv zeta in Run.
+  pose proof (split_half_edge_ccw pts d e0 v Wf FC He0 Ie Ot SB) as FC1.
+  pose proof (SP.split_half_edge_wf d e0 v Wf He0 Ie Ot) as P. cbv zeta in P.
+  pose proof (SP.split_half_edge_extra d e0 v Wf He0 Ie Ot) as Q. cbv zeta in Q.
+  set (d1 := fst (split_half_edge d e0 v)) in *.
+  destruct P as (W1 & _ & P1 & P2 & P3 & PL & P4 & P5 & P6 & _).
+  assert (Hh : Raw.num_vertices d < Raw.num_vertices d1) by lia.
+  destruct (on_edge_finish pts fuel d1 e a0 a1 _ d' W1 FC1 Hh Run) as (R1 & R2 & R3 & R4 & R5 & R6 & R7 & R8).
+  destruct (is_flagged_app d d1 _ e Wf He P4) as (F1 & F2).
+  split; [exact R1|]. split; [exact R2|].
+  split; [congruence|]. split; [congruence|]. split; [congruence|].
+  split.
+  { rewrite R6, F1, P4.
+    destruct (is_flagged d e) eqn:Fe; [|reflexivity].
+    destruct Hdiv as [(-> & ->)|(-> & ->)].
+    - apply (flag_pair (d_flags d) [false; false] (Nat.div2 e) Fe F2).
+    - apply (flag_pair (d_flags d) [false; false] (Nat.div2 e) Fe F2). }
+  split.
+  { intros u Hu. cbv zeta. assert (Hu' : u < Raw.num_vertices d1) by lia.
+    destruct (R7 u Hu') as (X1 & X2 & X3). destruct (P5 u Hu) as (Y1 & Y2 & Y3). cbv zeta in *.
+    repeat split; congruence. }
+  split.
+  { cbv zeta. destruct (R7 _ Hh) as (X1 & X2 & X3). cbv zeta in *. rewrite Q in X1, X2, X3.
+    cbn [v_x v_y v_data] in X1, X2, X3. auto. }
+  intros x Hx. rewrite R8 by lia. apply P6. exact Hx.
+Qed.
+
+Theorem insert_on_edge_hull_invariant : forall pts fuel d e v d',
+  DWf d -> FacesCcw (obs_of_dcel d) pts -> e < length (d_hedges d) ->
+  (inner d e /\ outer d (rev e)) \/ (outer d e /\ inner d (rev e)) ->
+  strictly_between (vpos pts (e_origin d e)) (vpos pts (e_to d e)) (vpos pts (Raw.num_vertices d)) = true ->
+  insert_2d pts fuel d (IOnEdge e) v = Some d' ->
+     DWf d' /\ FacesCcw (obs_of_dcel d') pts
+  /\ Raw.num_vertices d' = S (Raw.num_vertices d) /\ Raw.num_undirected_edges d' = Raw.num_undirected_edges d + 2
+  /\ Raw.num_faces d' = Raw.num_faces d + 1
+  /\ d_flags d' = d_flags d ++ (if is_flagged d e then [false; true] else [false; false])
+  /\ (forall u, u < Raw.num_vertices d -> let a := nth u (d_verts d') dflt_v in let b := nth u (d_verts d) dflt_v in
+                v_x a = v_x b /\ v_y a = v_y b /\ v_data a = v_data b)
+  /\ (let a := nth (Raw.num_vertices d) (d_verts d') dflt_v in v_x a = vd_x v /\ v_y a = vd_y v /\ v_data a = vd_d v)
+  /\ (forall x, x < length (d_hedges d) -> (e_face d' x = 0 <-> e_face d x = 0)).
+Proof.
+  intros pts fuel d e v d' Wf FC He Cases SB Run.
+  pose proof Wf as W. apply DWf_DW in W.
+  pose proof (DWf_len_hedges d Wf) as LH. unfold Raw.num_undirected_edges in LH.
+  unfold insert_2d, insert_on_edge in Run.
+  destruct Cases as [(Ie & Ot)|(Oe & It)].
+  - assert (O1 : is_outer d e = false) by (apply Nat.eqb_neq; exact Ie).
+    assert (O2 : is_outer d (e_rev e) = true) by (apply Nat.eqb_eq; exact Ot).
+    rewrite O1, O2 in Run.
+    pose proof (SP.split_half_edge_wf d e v Wf He Ie Ot) as P. cbv zeta in P.
+    destruct P as (_ & Ph & _ & _ & _ & _ & _ & _ & _ & _ & _ & _ & Pr & _).
+    destruct (split_half_edge d e v) as [d1 [h [a0 a1]]] eqn:E. cbn [fst snd] in Ph, Pr.
+    injection Pr as -> ->. subst h.
+    apply (on_edge_hull_core pts fuel d e v d' e e (length (d_hedges d) + 2) Wf FC He Ie Ot SB He).
+    + left. split; [reflexivity|]. rewrite LH. replace (2 * length (d_flags d) + 2) with (2 * (length (d_flags d) + 1)) by lia.
+      apply Nat.div2_double.
+    + cbv zeta. rewrite E. cbn [fst]. exact Run.
+  - assert (O1 : is_outer d e = true) by (apply Nat.eqb_eq; exact Oe).
+    rewrite O1 in Run.
+    pose proof (dw_rev_lt d W e He) as Hr.
+    assert (Ot : outer d (rev (rev e))) by (rewrite rev_rev; exact Oe).
+    assert (SB' : strictly_between (vpos pts (e_origin d (rev e))) (vpos pts (e_to d (rev e)))
+                    (vpos pts (Raw.num_vertices d)) = true).
+    { unfold e_to, e_rev in *. rewrite rev_rev. apply strictly_between_swap. exact SB. }
+    pose proof (SP.split_half_edge_wf d (rev e) v Wf Hr It Ot) as P. cbv zeta in P.
+    destruct P as (_ & Ph & _ & _ & _ & _ & _ & _ & _ & _ & _ & _ & Pr & _).
+    unfold e_rev in Run.
+    destruct (split_half_edge d (rev e) v) as [d1 [h [a0 a1]]] eqn:E. cbn [fst snd] in Ph, Pr.
+    injection Pr as -> ->. subst h.
+    apply (on_edge_hull_core pts fuel d (rev e) v d' e (rev (length (d_hedges d) + 2)) (rev (rev e)) Wf FC Hr It Ot SB' He).
+    + right. split; [|rewrite rev_rev; reflexivity].
+      rewrite div2_rev, LH. replace (2 * length (d_flags d) + 2) with (2 * (length (d_flags d) + 1)) by lia.
+      apply Nat.div2_double.
+    + cbv zeta. rewrite E. cbn [fst]. exact Run.
+Qed.
+
+(* the unflagged case exactly as a corollary: three new free edges *)
+Corollary insert_on_edge_free_invariant : forall pts fuel d e v d',
+  DWf d -> FacesCcw (obs_of_dcel d) pts -> e < length (d_hedges d) -> inner d e -> inner d (rev e) ->
+  is_flagged d e = false ->
+  strictly_between (vpos pts (e_origin d e)) (vpos pts (e_to d e)) (vpos pts (Raw.num_vertices d)) = true ->
+  insert_2d pts fuel d (IOnEdge e) v = Some d' ->
+     DWf d' /\ FacesCcw (obs_of_dcel d') pts
+  /\ Raw.num_vertices d' = S (Raw.num_vertices d) /\ Raw.num_undirected_edges d' = Raw.num_undirected_edges d + 3
+  /\ Raw.num_faces d' = Raw.num_faces d + 2
+  /\ d_flags d' = d_flags d ++ [false; false; false]
+  /\ (forall u, u < Raw.num_vertices d -> let a := nth u (d_verts d') dflt_v in let b := nth u (d_verts d) dflt_v in
+                v_x a = v_x b /\ v_y a = v_y b /\ v_data a = v_data b)
+  /\ (let a := nth (Raw.num_vertices d) (d_verts d') dflt_v in v_x a = vd_x v /\ v_y a = vd_y v /\ v_data a = vd_d v)
+  /\ (forall x, x < length (d_hedges d) -> (e_face d' x = 0 <-> e_face d x = 0)).
+Proof.
+  intros pts fuel d e v d' Wf FC He Ie It Fl SB Run.
+  pose proof (insert_on_edge_invariant pts fuel d e v d' Wf FC He Ie It SB Run) as P.
+  rewrite Fl in P. exact P.
+Qed.
+
+(* the flagged case: both halves of the split constraint edge are flagged afterwards *)
+Corollary insert_on_edge_constraint_invariant : forall pts fuel d e v d',
+  DWf d -> FacesCcw (obs_of_dcel d) pts -> e < length (d_hedges d) -> inner d e -> inner d (rev e) ->
+  is_flagged d e = true ->
+  strictly_between (vpos pts (e_origin d e)) (vpos pts (e_to d e)) (vpos pts (Raw.num_vertices d)) = true ->
+  insert_2d pts fuel d (IOnEdge e) v = Some d' ->
+     DWf d' /\ FacesCcw (obs_of_dcel d') pts
+  /\ d_flags d' = d_flags d ++ [false; true; false]
+  /\ is_flagged d' e = true /\ is_flagged d' (length (d_hedges d) + 3) = true.
+Proof.
+  intros pts fuel d e v d' Wf FC He Ie It Fl SB Run.
+  destruct (insert_on_edge_invariant pts fuel d e v d' Wf FC He Ie It SB Run) as (P1 & P2 & _ & _ & _ & P6 & _).
+  rewrite Fl in P6.
+  destruct (is_flagged_app d d' _ e Wf He P6) as (F1 & F2).
+  pose proof (DWf_len_hedges d Wf) as LH. unfold Raw.num_undirected_edges in LH.
+  split; [exact P1|]. split; [exact P2|]. split; [exact P6|]. split; [congruence|].
+  unfold is_flagged. rewrite P6.
+  replace (length (d_hedges d) + 3) with (2 * (length (d_flags d) + 1) + 1) by lia. rewrite div2_odd_double.
+  rewrite app_nth2 by lia. replace (length (d_flags d) + 1 - length (d_flags d)) with 1 by lia. reflexivity.
+Qed.
+
+(* ================================================================================================ *)
+(* PART 4.  insertion on an existing vertex                                                          *)
+(* ================================================================================================ *)
+
+Theorem insert_on_vertex_invariant : forall pts fuel d u v d',
+  DWf d -> u < Raw.num_vertices d ->
+  insert_2d pts fuel d (IOnVertex u) v = Some d' ->
+     DWf d'
+  /\ (FacesCcw (obs_of_dcel d) pts -> FacesCcw (obs_of_dcel d') pts)
+  /\ d_hedges d' = d_hedges d /\ d_faces d' = d_faces d /\ d_flags d' = d_flags d
+  /\ Raw.num_vertices d' = Raw.num_vertices d
+  /\ nth u (d_verts d') dflt_v = mkv (vd_x v) (vd_y v) (vd_d v) (v_out_edge d u)
+  /\ (forall w, w <> u -> nth w (d_verts d') dflt_v = nth w (d_verts d) dflt_v).
+Proof.
+  intros pts fuel d u v d' Wf Hu Run. unfold insert_2d in Run. injection Run as <-.
+  set (r := mkv (vd_x v) (vd_y v) (vd_d v) (v_out (nth u (d_verts d) dflt_v))).
+  set (d' := mkdcel (set_nth u r (d_verts d)) (d_hedges d) (d_faces d) (d_flags d)).
+  apply DWf_DW in Wf.
+  assert (Vo : forall w, v_out_edge d' w = v_out_edge d w).
+  { intro w. unfold v_out_edge, d'. cbn [d_verts]. destruct (Nat.eq_dec u w) as [->|N].
+    - rewrite nth_snth_same by exact Hu. reflexivity.
+    - rewrite nth_snth_other by exact N. reflexivity. }
+  assert (LV : length (d_verts d') = length (d_verts d)) by (unfold d'; cbn [d_verts]; apply snth_length).
+  assert (W' : DW d').
+  { constructor.
+    - exact (dw_even d Wf).
+    - exact (dw_face1 d Wf).
+    - intros e He. rewrite LV. exact (dw_rng d Wf e He).
+    - intros w Hw a. rewrite Vo. rewrite LV in Hw. exact (dw_vout_rng d Wf w Hw a).
+    - exact (dw_adj_rng d Wf).
+    - exact (dw_links d Wf).
+    - exact (dw_fptr d Wf).
+    - intros w Hw. rewrite Vo. rewrite LV in Hw. exact (dw_vptr d Wf w Hw).
+    - exact (dw_tri d Wf). }
+  split; [apply DWf_DW; exact W'|].
+  split.
+  { intros FC. apply edges_ccw_faces; [exact W'|]. exact (faces_ccw_edges pts d Wf FC). }
+  split; [reflexivity|]. split; [reflexivity|]. split; [reflexivity|].
+  split; [exact LV|].
+  split; [unfold d'; cbn [d_verts]; apply nth_snth_same; exact Hu|].
+  intros w Hw. unfold d'. cbn [d_verts]. apply nth_snth_other. auto.
+Qed.
+
+(* PRINT-ASSUMPTIONS *)
+Print Assumptions legalize_vertex_invariant.
+Print Assumptions insert_on_face_invariant.
+Print Assumptions insert_on_edge_invariant.
+Print Assumptions insert_on_edge_free_invariant.
+Print Assumptions insert_on_edge_constraint_invariant.
+Print Assumptions insert_on_edge_hull_invariant.
+Print Assumptions insert_on_vertex_invariant.
